@@ -232,6 +232,51 @@ fn scaled(r: &mut Rng, lo: usize, hi: usize) -> usize {
     r.range(lo * k, hi * k)
 }
 
+/// An item whose FIELD TYPES name another item of the session (by its identifier, the way user code refers to its
+/// own types), under the same derive where that derive takes a plain struct, else under one of the operator /
+/// conversion derives: whatever a derive remembers about the *types it has expanded* (a registry of derived enums,
+/// a table of "known" names) meets a use of such a name here — and does not in the pristine reference.
+pub fn referrer(key: &Key, r: &mut Rng) -> Option<Key> {
+    let di: syn::DeriveInput = syn::parse_str(&key.item).ok()?;
+    let x = di.ident.to_string();
+    let name = ident(r, "Rf");
+    const PLAIN: &[&str] = &["Add", "Sub", "BitAnd", "BitOr", "BitXor", "Mul", "Div", "Rem", "AddAssign", "SubAssign", "MulAssign", "Not", "Neg", "From", "Into", "Constructor", "Debug", "Sum", "Product"];
+    let derive = if PLAIN.contains(&key.derive.as_str()) && r.chance(3, 4) { key.derive.clone() } else { r.pick(PLAIN).to_string() };
+    let other = *r.pick(PRIMS);
+    let item = match r.below(5) {
+        0 => format!("struct {name} ({x}) ;"),
+        1 => format!("struct {name} ({x} , {other}) ;"),
+        2 => format!("struct {name} {{ balance : {x} , note : {other} }}"),
+        3 => format!("struct {name} {{ a : crate :: model :: {x} , b : Vec < {x} > }}"),
+        _ => format!("struct {name} ({other} , Option < {x} >) ;"),
+    };
+    Some(Key { derive, item })
+}
+
+/// A fresh enum under an operator / conversion derive and a struct that holds it, under the same derive.
+pub fn linked_pair(r: &mut Rng) -> (Key, Key) {
+    let derive = *r.pick(&["Add", "Sub", "BitAnd", "BitOr", "BitXor", "Mul", "AddAssign", "Not", "Neg", "From", "Into", "Sum"]);
+    let e = ident(r, "Am");
+    let vs: Vec<String> = (0..r.range(2, 4)).map(|i| format!("V{i}{} ({})", ident(r, ""), r.pick(&["i32", "i64", "u8", "f64"]))).collect();
+    let first = Key { derive: derive.to_string(), item: format!("enum {e} {{ {} }}", vs.join(" , ")) };
+    let second = referrer(&Key { derive: derive.to_string(), item: first.item.clone() }, r).expect("referrer of a generated enum");
+    (first, Key { derive: derive.to_string(), item: second.item })
+}
+
+/// Small items for the concurrent phase of the Miri layer: one or two per shared helper / name generator / table.
+pub const CONCURRENT_ITEMS: &[(&str, &str)] = &[
+    ("From", "# [from (forward)] struct Fw2 (i32 , String) ;"),
+    ("From", "# [from (forward)] struct Fw3 { a : u8 , b : u16 , c : u32 }"),
+    ("From", "enum FrE { A (i32) , B (String) , # [from (ignore)] C (u8) }"),
+    ("TryInto", "# [try_into (owned , ref)] enum Ti { A (i32) , B (i64) , C (i32) }"),
+    ("FromStr", "enum Fs { Alpha , Beta , ALPHA }"),
+    ("Error", "enum Er < A , B > { X (A) , Y { source : B } }"),
+    ("Display", "# [display (\"{a}:{b:?}\")] struct Di < T , U > { a : T , b : U }"),
+    ("IsVariant", "enum Iv { AlphaBeta , GammaDelta (u8) }"),
+    ("Unwrap", "enum Un { A (u8) , B (u8 , u16) , C }"),
+    ("Add", "struct Ad (i32 , i64) ;"),
+];
+
 /// Type-position macro invocations; `TYPE_MACRO_DEFS` defines them for layers that compile the item.
 pub const TYPE_MACROS: &[&str] = &["Arr ! [u8 , 4]", "Arr ! [i64 , 2 + 1]", "Same ! (Vec < u16 >)", "Pair ! { String , & 'static str }", "Same ! [Arr ! (bool , 3)]"];
 pub const TYPE_MACRO_DEFS: &str = "macro_rules! Arr { ($t:ty, $n:expr) => { [$t; $n] }; } macro_rules! Same { ($t:ty) => { $t }; } macro_rules! Pair { ($a:ty, $b:ty) => { ($a, $b) }; }";
